@@ -565,6 +565,29 @@ def writeVal (cfg : Cfg) (σ : Store) (x : String) (v : Val) : Store × Option S
       | .ok v' => (writeName σ x v', none)
       | .error st => (σ, some st)
 
+/-- `harness/lower/stmt.rs: lower_for`: a missing `BY` clause is lowered to `Literal(Value::Int(1))`. -/
+def stepExpr (step : Option Expr) : Expr :=
+  match step with
+  | some st => st
+  | none => .lit (some .int) 1
+
+/-- The prologue of `Stmt::For`: start, end and step are evaluated once, in this order, then
+converted with `int_value`; step 0 is `ForStepZero`; the control variable's current value is the
+template whose *kind* the counter is coerced to; an unsigned template with a negative step is
+`TypeMismatch`; the first value is coerced.  Result: (start, end, step, first value). -/
+def forPre (cfg : Cfg) (σ : Store) (x : String) (s e stepE : Expr) : M (Int × Int × Int × Val) := do
+  let sv ← evalExpr cfg σ s
+  let ev ← evalExpr cfg σ e
+  let tv ← evalExpr cfg σ stepE
+  let si ← intValue cfg sv
+  let ei ← intValue cfg ev
+  let ti ← intValue cfg tv
+  if ti = 0 then fault .ForStepZero .forStepZero else do
+  let tmpl ← readName σ x
+  if tmpl.isUnsignedInt && decide (ti < 0) then fault .TypeMismatch .forUnsignedNegStep else do
+  let first ← coerceLoopValue tmpl si
+  pure (si, ei, ti, first)
+
 /-- Result of executing something: the store as it is when execution stops (also on a fault:
 the Rust code mutates storage in place) and how it stopped. -/
 abbrev Res := Store × M Flow
@@ -599,21 +622,7 @@ def execStmt (cfg : Cfg) : Nat → Nat → Store → Stmt → Res
       | .ok none => execBlock cfg fuel ld σ el
       | .error st => (σ, .error st)
     | .for x s e step body =>
-      -- start, end, step are evaluated once, in this order, then converted with int_value
-      let stepE := match step with | some st => st | none => Expr.lit (some .int) 1
-      let pre : M (Int × Int × Int × Val) := do
-        let sv ← evalExpr cfg σ s
-        let ev ← evalExpr cfg σ e
-        let tv ← evalExpr cfg σ stepE
-        let si ← intValue cfg sv
-        let ei ← intValue cfg ev
-        let ti ← intValue cfg tv
-        if ti = 0 then fault .ForStepZero .forStepZero else do
-        let tmpl ← readName σ x
-        if tmpl.isUnsignedInt && decide (ti < 0) then fault .TypeMismatch .forUnsignedNegStep else do
-        let first ← coerceLoopValue tmpl si
-        pure (si, ei, ti, first)
-      match pre with
+      match forPre cfg σ x s e (stepExpr step) with
       | .error st => (σ, .error st)
       | .ok (si, ei, ti, first) =>
         -- the template keeps its *kind*; `first` has that kind
